@@ -209,6 +209,9 @@ func headerList(h http.Header) []string {
 		if k == "Content-Length" || k == "Transfer-Encoding" {
 			continue
 		}
+		if len(vs) == 0 { // a name that is present without values is still present (handlers test h[name], range over the map)
+			out = append(out, k+" (present, no values)")
+		}
 		for _, v := range vs {
 			out = append(out, k+": "+v)
 		}
